@@ -7,6 +7,7 @@
   whole evaluator is G2 (see `underscore_never`).
 -/
 import SeedProofs.Lemmas.C20Bind
+import SeedProofs.Lemmas.Frame2
 namespace Seed.C20
 open Seed ScopeL BindL
 
@@ -328,5 +329,57 @@ theorem dup_param (n : Nat) (x : List Char) (loc l0 : Loc) (q : List Expr) (seen
   rw [validateArgs]; simp only [hx, if_false, hs]
 
 example : lookupAssoc c!"p" [(c!"p", ((1, 5) : Loc))] = some (1, 5) := by decide
+
+
+/-! ### `_` never becomes readable: the invariant lifted through the whole evaluator -/
+
+/-- "if no scope cell held `_` before, none holds it after" is preserved by every way the evaluator changes the state -/
+theorem noUnderscore_good : GoodRelC (fun σ σ' => NoUnderscore σ → NoUnderscore σ') where
+  refl := fun _ h => h
+  trans := fun h1 h2 h => h2 (h1 h)
+  allocList := fun σ xs h => noUnderscore_alloc h _ (fun m e => by cases e)
+  allocObj := fun σ m h => noUnderscore_alloc h _ (fun m e => by cases e)
+  allocFunc := fun σ f h => noUnderscore_alloc h _ (fun m e => by cases e)
+  allocScope := fun σ h => noUnderscore_alloc h _ (fun m e => by cases e; rfl)
+  print := fun σ l h a m hm => h a m hm
+  setList := fun σ a ys h => noUnderscore_set h a _ (fun m e => by cases e)
+  setObj := fun σ a m' h => noUnderscore_set h a _ (fun m e => by cases e)
+  bindName := fun n σ σ' sc names names' name loc rhs op decl hb h =>
+    bindNextName_keeps_noUnderscore n σ σ' sc names names' name loc rhs op decl h hb
+
+/-- whatever statements are executed, successfully, from a state where no scope holds `_`, none holds it afterwards -/
+theorem noUnderscore_preserved (n : Nat) (σ σ' : State) (sc : List Addr) (ss : List Stmt) (esc : Escape)
+    (hi : NoUnderscore σ) (h : evalStmts n σ sc ss = .ok esc σ') : NoUnderscore σ' := by
+  have := (relOkAll noUnderscore_good n).evalStmts σ σ sc ss (fun h => h)
+  rw [h] at this
+  exact this hi
+
+/-- the same for a block with bindings (a call body with its parameters, a loop iteration with its target) -/
+theorem noUnderscore_preserved_block (n : Nat) (σ σ' : State) (sc : List Addr) (bs : List (Expr × SVal)) (ss : List Stmt)
+    (esc : Escape) (hi : NoUnderscore σ) (h : evalBlock n σ sc bs ss = .ok esc σ') : NoUnderscore σ' := by
+  have := (relOkAll noUnderscore_good n).evalBlock σ σ sc bs ss (fun h => h)
+  rw [h] at this
+  exact this hi
+
+/-- **`_` never becomes readable.**  After any statements whatsoever have run (declarations, destructurings, loops, calls …
+    with `_` as a target anywhere), reading `_` is still the error `'_' is not defined`, in every scope chain. -/
+theorem underscore_never (n m : Nat) (σ σ' : State) (sc sc' : List Addr) (ss : List Stmt) (esc : Escape) (l : Loc)
+    (hi : NoUnderscore σ) (h : evalStmts n σ sc ss = .ok esc σ') :
+    evalExpr (m + 1) σ' sc' (.mk (.Var c!"_") l) = errAt l (Gen.Leaf.Undefined c!"_") σ' :=
+  underscore_never_partial m σ' sc' l (noUnderscore_preserved n σ σ' sc ss esc hi h)
+
+/-- for whole programs: the state a program ends in (and every state in between, by the lemmas above) has no `_` -/
+theorem underscore_never_prog (n : Nat) (stmts : List Stmt) (σ : State) (h : evalProg n stmts = .ok () σ) : NoUnderscore σ := by
+  unfold evalProg at h
+  dsimp only [] at h
+  cases hb : evalBlock n State.init [] [(.mk (.Var c!"print") (0, 0), SVal.plain (.builtin c!"print" .print))] stmts with
+  | ok esc σ1 =>
+    rw [hb] at h
+    have h1 := noUnderscore_preserved_block n State.init σ1 [] _ stmts esc noUnderscore_init hb
+    cases esc <;> simp [Res.bind, errAt] at h
+    subst h; exact h1
+  | err e σ1 => rw [hb] at h; simp [Res.bind] at h
+  | crash w σ1 => rw [hb] at h; simp [Res.bind] at h
+  | timeout => rw [hb] at h; simp [Res.bind] at h
 
 end Seed.C20
